@@ -149,6 +149,13 @@ func runC17(c *core.Ctx) {
 	round2Idx, round1Idx := len(worlds)-1, len(worlds)-2
 	worlds = append(worlds, c17Files(c, 1000, true))
 	bigIdx := len(worlds) - 1
+	// degenerate shapes of the single-element reports (round 13, L17: a shortcut in bal -s for a tree that is one leaf
+	// named like the element returned without looking at the flush error): the element only ever logged directly under
+	// its own name, alone and next to one other food; appended after the large world, every offset
+	worlds = append(worlds,
+		map[string]string{"food.yaml": "a/b:\n  y: 1\n", "log.yaml": "2021/01/24:\n  x: 2\n2021/01/25:\n  x: 1.5\n", "bad.yaml": "2021/01/24:\n  broken\n", "stray.yaml": c17Stray},
+		map[string]string{"food.yaml": "x:\n", "log.yaml": "2021/01/24:\n  x: 2\n", "bad.yaml": "2021/01/24:\n  broken\n", "stray.yaml": c17Stray},
+		map[string]string{"food.yaml": "", "log.yaml": "2021/01/24:\n  x: 2\n  a: 1\n", "bad.yaml": "2021/01/24:\n  broken\n", "stray.yaml": c17Stray})
 	pre := []string{"--no-color", "-d", "food.yaml", "-l", "log.yaml", "--today", "2021/02/01"}
 	fullOut := map[[2]int]string{}
 	var jobs []job
